@@ -43,6 +43,23 @@ theorem walkB_sound (h : Heap) (f i p : Nat) (ids : List Nat) (hw : walkB h f i 
             rw [l2, r2, ← hp]
       · simp [hp] at hw
 
+theorem strictAsc_pairwise : ∀ (l : List Nat), strictAsc l = true → l.Pairwise (· < ·)
+  | [], _ => List.Pairwise.nil
+  | [a], _ => List.pairwise_singleton _ _
+  | a :: b :: l, h => by
+    simp only [strictAsc, Bool.and_eq_true, decide_eq_true_eq] at h
+    have ih := strictAsc_pairwise (b :: l) h.2
+    refine List.pairwise_cons.2 ⟨?_, ih⟩
+    intro x hx
+    rcases List.mem_cons.1 hx with e | e
+    · rw [e]; exact h.1
+    · exact Nat.lt_trans h.1 ((List.pairwise_cons.1 ih).1 x e)
+
+theorem nodupB_sound (l : List Nat) (h : nodupB l = true) : l.Nodup := by
+  have hp := strictAsc_pairwise _ h
+  have hn : (l.mergeSort (fun a b => decide (a ≤ b))).Nodup := hp.imp (fun hlt => Nat.ne_of_lt hlt)
+  exact (List.Perm.nodup_iff (List.mergeSort_perm l _)).1 hn
+
 /-- **the driver's check is sound**: a state that passes `wfB` is well-formed — its heap represents the
 tree read off it, parent pointers, sentinel fields, `size` and allocation serial included -/
 theorem wfB_sound (st : PT) (hw : wfB st = true) :
@@ -55,6 +72,6 @@ theorem wfB_sound (st : PT) (hw : wfB st = true) :
     simp only [Bool.and_eq_true, decide_eq_true_eq, beq_iff_eq, List.all_eq_true] at hw
     obtain ⟨⟨⟨⟨⟨⟨⟨⟨⟨⟨h1, h2⟩, h3⟩, h4⟩, h5⟩, h6⟩, h7⟩, h8⟩, h9⟩, _⟩, _⟩ := hw
     obtain ⟨r1, r2, r3⟩ := walkB_sound _ _ _ _ _ hwk
-    exact ⟨r2.symm, r1, by rw [r3]; exact h1, h5, ⟨h6, h7, h8, h9⟩, by rw [r3, h2],
+    exact ⟨r2.symm, r1, by rw [r3]; exact nodupB_sound _ h1, h5, ⟨h6, h7, h8, h9⟩, by rw [r3, h2],
       fun i hi => h3 i (by rw [← r3]; exact hi), h4⟩
 end CC.PTree
